@@ -28,6 +28,13 @@ fn read(b: &ffi::Buffer) -> Vec<u8> {
     if b.len == 0 { vec![] } else { unsafe { std::slice::from_raw_parts(b.ptr, b.len) }.to_vec() }
 }
 fn list_fr(s: &str) -> Option<Vec<rln::circuit::Fr>> {
+    // `gen:<n>:<seed>` (hex): the n consecutive values seed+1, …, seed+n — long lists without long lines
+    if let Some(rest) = s.strip_prefix("gen:") {
+        let (n, seed) = rest.split_once(':')?;
+        let (n, seed) = (parse_usize(n)?, parse_usize(seed)? as u64);
+        return Some((1..=n as u64).map(|i| rln::circuit::Fr::from(seed + i)).collect());
+    }
+
     if s == "-" { return Some(vec![]); }
     s.split(',').map(parse_fr).collect()
 }
@@ -122,6 +129,22 @@ impl LockCtx {
                     "prove_wit" => (ffi::generate_rln_proof_with_witness(a, &buf(&d), &mut ob), b.generate_rln_proof_with_witness(Cursor::new(d.clone()), &mut c)),
                     _ => (ffi::prove(a, &buf(&d), &mut ob), b.prove(Cursor::new(d.clone()), &mut c)),
                 };
+                // the same call "in place": ONE Buffer struct passed as input and as output (legal for a C caller: the wrapper reads
+                // its input before it publishes the result) must give the same flag and the same published values
+                {
+                    let mut io = buf(&d);
+                    let p: *mut ffi::Buffer = &mut io;
+                    let ok2 = match w[1] {
+                        "prove_req" => ffi::generate_rln_proof(a, p as *const ffi::Buffer, p),
+                        "prove_wit" => ffi::generate_rln_proof_with_witness(a, p as *const ffi::Buffer, p),
+                        _ => ffi::prove(a, p as *const ffi::Buffer, p),
+                    };
+                    let r1 = strip_proof(outb(ok, &ob));
+                    let r2 = strip_proof(if ok2 { format!("ok {}", show_bytes(&read(&io))) } else { "err".into() });
+                    if r1 != r2 {
+                        return Some(format!("DIFF in-place call (one Buffer struct as input and output): {} vs separate buffers: {}", &r2[..r2.len().min(80)], &r1[..r1.len().min(80)]));
+                    }
+                }
                 // the proofs are randomised: both messages must verify under the OTHER instance, then only the values are compared
                 let (ma, mb) = (read(&ob), c.get_ref().clone());
                 if ok && r.is_ok() && w[1] != "prove_raw" {
@@ -160,6 +183,13 @@ impl LockCtx {
                 let (d1, d2) = (parse_bytes(w[2])?, parse_bytes(w[3])?);
                 let mut ob = empty();
                 let ok = ffi::recover_id_secret(a, &buf(&d1), &buf(&d2), &mut ob);
+                {
+                    let mut io = buf(&d2);
+                    let p: *mut ffi::Buffer = &mut io;
+                    let ok2 = ffi::recover_id_secret(a, &buf(&d1), p as *const ffi::Buffer, p);
+                    let (r1, r2) = (outb(ok, &ob), if ok2 { format!("ok {}", show_bytes(&read(&io))) } else { "err".to_string() });
+                    if r1 != r2 { return Some(format!("DIFF in-place call (one Buffer struct as input and output): {} vs separate buffers: {}", r2, r1)); }
+                }
                 let mut c = Cursor::new(Vec::new());
                 let r = b.recover_id_secret(Cursor::new(d1.clone()), Cursor::new(d2.clone()), &mut c);
                 (outb(ok, &ob), outc(r, c))
@@ -168,6 +198,15 @@ impl LockCtx {
                 let d = parse_bytes(w[2])?;
                 let mut ob = empty();
                 let mut c = Cursor::new(Vec::new());
+                {
+                    let mut io = buf(&d);
+                    let p: *mut ffi::Buffer = &mut io;
+                    let mut sep = empty();
+                    let (ok1, ok2) = if w[1] == "seeded_key_gen" { (ffi::seeded_key_gen(a, &buf(&d), &mut sep), ffi::seeded_key_gen(a, p as *const ffi::Buffer, p)) }
+                        else { (ffi::seeded_extended_key_gen(a, &buf(&d), &mut sep), ffi::seeded_extended_key_gen(a, p as *const ffi::Buffer, p)) };
+                    let (r1, r2) = (outb(ok1, &sep), if ok2 { format!("ok {}", show_bytes(&read(&io))) } else { "err".to_string() });
+                    if r1 != r2 { return Some(format!("DIFF in-place call (one Buffer struct as input and output): {} vs separate buffers: {}", r2, r1)); }
+                }
                 if w[1] == "seeded_key_gen" { let ok = ffi::seeded_key_gen(a, &buf(&d), &mut ob); let r = b.seeded_key_gen(Cursor::new(d.clone()), &mut c); (outb(ok, &ob), outc(r, c)) }
                 else { let ok = ffi::seeded_extended_key_gen(a, &buf(&d), &mut ob); let r = b.seeded_extended_key_gen(Cursor::new(d.clone()), &mut c); (outb(ok, &ob), outc(r, c)) }
             }
@@ -175,6 +214,15 @@ impl LockCtx {
                 let d = parse_bytes(w[2])?;
                 let mut ob = empty();
                 let mut c = Cursor::new(Vec::new());
+                {
+                    let mut io = buf(&d);
+                    let p: *mut ffi::Buffer = &mut io;
+                    let mut sep = empty();
+                    let (ok1, ok2) = if w[1] == "hash" { (ffi::hash(&buf(&d), &mut sep), ffi::hash(p as *const ffi::Buffer, p)) }
+                        else { (ffi::poseidon_hash(&buf(&d), &mut sep), ffi::poseidon_hash(p as *const ffi::Buffer, p)) };
+                    let (r1, r2) = (outb(ok1, &sep), if ok2 { format!("ok {}", show_bytes(&read(&io))) } else { "err".to_string() });
+                    if r1 != r2 { return Some(format!("DIFF in-place call (one Buffer struct as input and output): {} vs separate buffers: {}", r2, r1)); }
+                }
                 if w[1] == "hash" { let ok = ffi::hash(&buf(&d), &mut ob); let r = rln::public::hash(Cursor::new(d.clone()), &mut c); (outb(ok, &ob), outc(r, c)) }
                 else { let ok = ffi::poseidon_hash(&buf(&d), &mut ob); let r = rln::public::poseidon_hash(Cursor::new(d.clone()), &mut c); (outb(ok, &ob), outc(r, c)) }
             }
